@@ -9,7 +9,7 @@ EXPLANATION = (
     "artefact of a class is suppressed and another is not. X2: the ignore test dominates every emission made for "
     "the class: pybind - class block, class-scoped enums (= C03/A5); MATLAB - the test in wrap_instantiated_class "
     "returns before any id allocation / text / file entry, and the one in generate_preamble skips the class before "
-    "its collector, clean-up entry, RTTI entry and typedef. X3: every caller of the function that returns None for "
+    "its collector, clean-up entry, RTTI entry and typedef. Every iteration over the registered classes applies the ignore list. X4: the one piece of state shared between class blocks of the pybind generator (the docstring overload memory) is keyed by the class exactly as the emitter spells it. X3: every caller of the function that returns None for "
     "an ignored class tests the result before subscripting it. Equivalence with deleting the declaration for all "
     "inputs, and the consistent renumbering of ids, follow from X1-X3 together with C05 and are not re-proved.")
 ASSUMPTIONS = ["an ignore entry is the C++ qualified name without a leading '::' (scripts' --ignore help text)"]
@@ -19,4 +19,6 @@ def run(ctx, rep):
     rep.run(RM.rule_one_ignore_key, ctx, rep, "X1")
     rep.run(RP.rule_ignore_dominates, ctx, rep, "X2")
     rep.run(RM.rule_ignore_dominates_matlab, ctx, rep, "X2")
+    rep.run(RM.rule_every_class_iteration_filtered, ctx, rep, "X2")
+    rep.run(RM.rule_cross_class_state_keyed_by_class, ctx, rep, "X4")
     rep.run(RM.rule_none_result_handled, ctx, rep, "X3")
